@@ -197,6 +197,110 @@ def _tdtype(case):
     return torch.float64 if case.get("dtype") == "float64" else torch.float32
 
 
+# ---- mixed dtypes between the arguments ---------------------------------------------------------
+# `dtype` (float32 / float64) is the dtype of the module's parameters and the default dtype of every
+# argument; `mixed` = {"q": name, "k": name, "v": name, "m": name} overrides single arguments.
+FLOAT_DTYPES = ("float32", "float64", "float16", "bfloat16")
+INT_DTYPES = ("int64", "int32", "int16", "int8", "uint8", "bool")
+ALL_DTYPES = FLOAT_DTYPES + INT_DTYPES
+
+
+def _td(name):
+    import torch
+    return getattr(torch, name)
+
+
+def arg_dtypes(case):
+    """names of the dtypes of (query, key, value, parameters)"""
+    base = case.get("dtype", "float32")
+    mx = case.get("mixed") or {}
+    kn = mx.get("k", base)
+    return mx.get("q", base), kn, kn if case.get("alias") else mx.get("v", base), base
+
+
+def expected_dtypes(case):
+    """(A, P, legal): dtype of the scores / attention weights, dtype of the result, and whether torch's type
+    promotion makes the call legal -- from the rules of torch alone (NOT observed on the implementation, so
+    that a changed implementation cannot widen its own tolerance):
+      dot      (query * key).sum(-1) * python float: promote(q, k), the default dtype if that is integral;
+      general  linear(key, W, b) needs key.dtype == W.dtype; then query * Wkey: promote(q, W);
+      concat   cat([query, key]) has promote(q, k), which linear needs to be W.dtype; scores have W.dtype;
+      result   weights.unsqueeze(-1) * value: promote(A, v).  The mask must be bool (masked_fill)."""
+    import torch
+    qd, kd, vd, pd = (_td(x) for x in arg_dtypes(case))
+    legal = (case.get("mixed") or {}).get("m", "bool") == "bool"
+    if case["kind"] == "multi":
+        # every argument goes through a Linear first; `vpath`: W^V, W^C and value in float64
+        P = torch.float64 if case.get("vpath") else pd
+        return pd, P, legal
+    fl = case["flavour"]
+    if fl == "dot":
+        A = torch.promote_types(qd, kd)
+        if not A.is_floating_point:
+            A = torch.float32
+    elif fl == "general":
+        legal = legal and kd == pd
+        A = torch.promote_types(qd, pd)
+    else:
+        legal = legal and torch.promote_types(qd, kd) == pd
+        A = pd
+    return A, torch.promote_types(A, vd), legal
+
+
+def _heps(dt):
+    """machine epsilon of a half-precision dtype, 0 for float32 / float64 (their tolerance is TOL)"""
+    import torch
+    return float(torch.finfo(dt).eps) if dt in (torch.float16, torch.bfloat16) else 0.0
+
+
+def case_tol(case, A=None, P=None):
+    """relative tolerance of comparisons between calls / with the model: TOL, and 4 eps of the coarsest
+    dtype in the chain scores -> weights -> result when that is float16 / bfloat16"""
+    if A is None:
+        A, P, _ = expected_dtypes(case)
+    return max(TOL, 4 * max(_heps(A), _heps(P)))
+
+
+def _to_dtype(ints, name):
+    """integer valued python list -> tensor of the named dtype without wrap-around (unsigned: absolute
+    value; bool: non-zero)"""
+    import torch
+    x = torch.tensor(ints, dtype=torch.float64)
+    if name == "uint8":
+        x = x.abs()
+    if name == "bool":
+        return x != 0
+    return x.to(_td(name))
+
+
+def _rand_like(rng, x, big):
+    """random finite replacement contents of the dtype of `x`, of size up to `big`"""
+    import torch
+    n = x.numel()
+    if x.dtype == torch.bool:
+        return torch.tensor([rng.random() < 0.5 for _ in range(n)], dtype=torch.bool).reshape(x.shape)
+    if x.dtype.is_floating_point:
+        big = min(big, float(torch.finfo(x.dtype).max) / 4)
+        return torch.tensor(_floats(rng, n, big), dtype=torch.float64).to(x.dtype).reshape(x.shape)
+    info = torch.iinfo(x.dtype)
+    lo, hi = max(info.min, -int(min(big, 2.0 ** 62))), min(info.max, int(min(big, 2.0 ** 62)))
+    return torch.tensor([rng.randint(lo, hi) for _ in range(n)], dtype=x.dtype).reshape(x.shape)
+
+
+def _top_like(rng, x):
+    """contents of the dtype of `x` of the largest finite size / 2 (scores computed from them overflow)"""
+    import torch
+    if x.dtype == torch.bool:
+        return _rand_like(rng, x, 1)
+    if x.dtype.is_floating_point:
+        top = float(torch.finfo(x.dtype).max) / 2
+        return torch.tensor([rng.choice([-top, top]) for _ in range(x.numel())],
+                            dtype=torch.float64).to(x.dtype).reshape(x.shape)
+    info = torch.iinfo(x.dtype)
+    return torch.tensor([rng.choice([info.min // 2, info.max // 2]) for _ in range(x.numel())],
+                        dtype=x.dtype).reshape(x.shape)
+
+
 def _layout(x, how, rng):
     """The same values in a tensor that is not contiguous in memory."""
     import torch
@@ -250,7 +354,25 @@ def make_inputs(case):
         q = torch.tensor(_ints(rng, _numel(qs), -lim, lim), dtype=torch.float32).reshape(qs)
         k = torch.tensor(_ints(rng, _numel(ks), -lim, lim), dtype=torch.float32).reshape(ks)
     v = torch.tensor(_ints(rng, _numel(vs), -9, 9), dtype=torch.float32).reshape(vs)
-    q, k, v = q.to(dt), k.to(dt), v.to(dt)
+    mx = case.get("mixed")
+    if mx:
+        # every argument in its own dtype (integer valued contents: exact in every dtype, also bfloat16)
+        qn, kn, vn, _ = arg_dtypes(case)
+        q = q.to(dt) if "q" not in mx else _to_dtype(q.reshape(-1).tolist(), qn).reshape(qs)
+        k = k.to(dt) if "k" not in mx else _to_dtype(k.reshape(-1).tolist(), kn).reshape(ks)
+        if "v" not in mx:
+            v = v.to(dt)
+        elif mx.get("vfrac") and vn in FLOAT_DTYPES:
+            # values that use the whole mantissa of their dtype (a cast to a narrower dtype is visible)
+            frng = random.Random(case["seed"] ^ 0xD7)
+            v = torch.tensor([frng.uniform(-9, 9) for _ in range(_numel(vs))],
+                             dtype=torch.float64).to(_td(vn)).reshape(vs)
+        else:
+            v = _to_dtype(v.reshape(-1).tolist(), vn).reshape(vs)
+    else:
+        q, k, v = q.to(dt), k.to(dt), v.to(dt)
+    if case["kind"] == "multi" and case.get("vpath"):
+        v = v.to(torch.float64)
     if case.get("alias"):
         v = k  # the SAME tensor object
     mask = None
@@ -271,6 +393,8 @@ def make_inputs(case):
                     if ms[ax] >= 2 and case["mask"] == "some" and bool(mm[r].all()) and rng.random() < 0.7:
                         mm[r, rng.randrange(ms[ax])] = False
                 mask = mm.reshape([s for j, s in enumerate(ms) if j != ax] + [ms[ax]]).movedim(-1, ax).contiguous()
+        if (mx or {}).get("m", "bool") != "bool":
+            mask = mask.to(_td(mx["m"]))  # outside the domain: masked_fill wants a bool mask
     params = None
     dtn = case.get("dtype", "float32")
     if case["kind"] == "single":
@@ -373,6 +497,10 @@ def make_multi(case, params):
                              d_v=None if case.get("dv_default") else params["dv"],
                              bias_WQ=f["wq"], bias_WK=f["wk"], bias_WV=f["wv"],
                              bias_WC=f["wc"]).to(dt)
+    if case.get("vpath"):
+        # mixed precision inside the module: the value path (W^V, W^C, and the value argument) in float64
+        m.WV.to(torch.float64)
+        m.WC.to(torch.float64)
     if [m.d_v, m.out_size] != list(eff_dims(case)):
         return m  # wrong defaults: reported by _run_multi (the parameters would not fit)
     inner2 = make_single(params["inner"], params["dq"], params["dk"], case["dim"], dt)
@@ -452,24 +580,47 @@ def fl_json(fl):
 
 
 def tl(x):
-    return [frac_str(float(y)) for y in x.reshape(-1).tolist()]
+    import torch
+    return [frac_str(float(y)) for y in x.to(torch.float64).reshape(-1).tolist()]
 
 
 def tl2(x):
     return [tl(r) for r in x]
 
 
-def close(a, b, scale):
-    """|a-b| <= TOL*scale elementwise on equal-shaped tensors; returns max abs diff or None if ok."""
+def close(a, b, scale, tol=TOL):
+    """|a-b| <= tol*scale elementwise on equal-shaped tensors; returns max abs diff or None if ok."""
     if a.shape != b.shape:
         return f"shape {list(a.shape)} vs {list(b.shape)}"
     import torch
+    a, b = a.to(torch.float64), b.to(torch.float64)
     if not (torch.isfinite(a).all() and torch.isfinite(b).all()):
         return "non-finite output"
     if a.numel() == 0:
         return None
     d = float((a - b).abs().max())
-    return None if d <= TOL * scale else f"max |diff| = {d:.3g}"
+    return None if d <= tol * scale else f"max |diff| = {d:.3g}"
+
+
+def wsum_diff(a, vals, out, i, T, P):
+    """The result is the weighted sum of the values under the weights the softmax returned, computed in the
+    promoted dtype P: |out - sum_t a_t v_t| <= (T + 2) eps(P) max|v| (each product and each partial sum is
+    rounded once in P; the reference is computed in double from the exact contents of `a` and `vals`)."""
+    import torch
+    ref = (a.to(torch.float64).unsqueeze(-1) * vals.to(torch.float64)).sum(i)
+    scale = max(1.0, float(vals.to(torch.float64).abs().max())) if vals.numel() else 1.0
+    if out.shape != ref.shape:
+        return f"shape {list(out.shape)} vs {list(ref.shape)}"
+    o = out.to(torch.float64)
+    if not (torch.isfinite(o).all() and torch.isfinite(ref).all()) or o.numel() == 0:
+        return None  # non-finite outputs are reported by C20.nonfinite
+    d = (o - ref).abs()
+    tol = (T + 2) * float(torch.finfo(P).eps) * scale
+    if float(d.max()) <= tol:
+        return None
+    j = int(d.reshape(-1).argmax())
+    return (f"{float(o.reshape(-1)[j])!r} vs sum_t a_t v_t = {float(ref.reshape(-1)[j])!r} "
+            f"(|diff| = {float(d.max()):.3g} > {tol:.3g})")
 
 
 # ------------------------------------------------------------------------------------ the check
@@ -517,8 +668,8 @@ class C20(PropertyCheck):
             lo, hi = 100, 200
         return {"mode": mode, "M": rng.randint(lo, hi), "M2": rng.randint(lo, hi)}
 
-    def _extras(self, rng, c, tier, mode=None, dtype=None, layout=False):
-        """dtype / memory layout / large-magnitude fields of a case (in place)."""
+    def _extras(self, rng, c, tier, mode=None, dtype=None, layout=False, mixed=None):
+        """dtype / memory layout / large-magnitude / mixed-dtype fields of a case (in place)."""
         dtype = dtype or ("float64" if rng.random() < 0.2 else "float32")
         if dtype != "float32":
             c["dtype"] = dtype
@@ -544,7 +695,77 @@ class C20(PropertyCheck):
             # value IS key (the class docstring's example passes the encoder output as both)
             c["alias"] = True
             c["D"], c["bv"], c["vT"] = c["K"], list(c["bk"]), True
+        if mixed is None:
+            mixed = rng.random() < 0.15
+        if mixed and c["kind"] == "single":
+            # the value in any dtype (it does not enter the scores, so also in the large-magnitude stream);
+            # query / key in any pair of dtypes torch admits (ordinary stream: integer valued, exact in all)
+            r = rng.random()
+            qd = kd = None
+            if mode is None and r < 0.5:
+                qd, kd = rng.choice(self._legal_qk(c["flavour"], dtype))
+                c["pmode"] = "int" if rng.random() < 0.5 else c["pmode"]
+            elif mode is None and r < 0.55:
+                qd, kd = rng.choice(ALL_DTYPES), rng.choice(ALL_DTYPES)  # may be outside the domain
+            self._mixed(rng, c, q=qd, k=kd, v=rng.choice(ALL_DTYPES) if r >= 0.5 or rng.random() < 0.7 else None)
+        elif mixed and dtype == "float32" and not c.get("alias"):
+            c["vpath"] = True  # W^V, W^C and the value in float64, everything else in float32
         return c
+
+    @staticmethod
+    def _legal_qk(flavour, base):
+        """the (query dtype, key dtype) pairs torch's type promotion admits for a module with parameters of
+        dtype `base` (see expected_dtypes)"""
+        import torch
+        out = []
+        for qd in ALL_DTYPES:
+            for kd in ALL_DTYPES:
+                if flavour == "dot" or (flavour == "general" and kd == base) or \
+                        (flavour == "concat" and torch.promote_types(_td(qd), _td(kd)) == _td(base)):
+                    out.append((qd, kd))
+        return out
+
+    def _mixed(self, rng, c, q=None, k=None, v=None, m=None):
+        """per-argument dtypes of a case (in place); only differences from the base dtype are stored"""
+        base = c.get("dtype", "float32")
+        mx = {n: d for n, d in (("q", q), ("k", k), ("v", v)) if d is not None and d != base}
+        if c.get("alias"):
+            mx.pop("v", None)  # value IS key
+        if mx.get("v") in FLOAT_DTYPES and rng.random() < 0.5:
+            mx["vfrac"] = True
+        if m is not None and c["mask"] != "none":
+            mx["m"] = m
+        if mx:
+            c["mixed"] = mx
+        return c
+
+    def _mixed_cases(self, rng, tier):
+        """MIXED DTYPES between the arguments: (a) the value in every dtype other than that of query / key /
+        parameters (integer counts, one-hot / bool features, half and double precision), every flavour, both
+        parameter dtypes; (b) query and key in different dtypes, every pair torch's type promotion admits
+        (sampled in the quick tier); (c) a few combinations torch rejects (outside the domain: recorded)."""
+        def one(flavour, base, mask="some"):
+            n = rng.choice([2, 3, 3, 4])
+            nb = rng.randint(0, n - 2)
+            c = self._single(rng, flavour, n, nb, rng.random() < 0.3, tier, mask=mask)
+            c["pmode"] = "int" if rng.random() < 0.7 else c["pmode"]
+            return self._extras(rng, c, tier, dtype=base, layout=None, mixed=False)
+        for flavour in FLAVOURS:
+            for base in ("float32", "float64"):
+                for vd in ALL_DTYPES:
+                    if vd != base:
+                        yield self._mixed(rng, one(flavour, base), v=vd)
+                pairs = [p for p in self._legal_qk(flavour, base) if p != (base, base)]
+                for qd, kd in (rng.sample(pairs, min(9, len(pairs))) if tier == "quick" else pairs):
+                    yield self._mixed(rng, one(flavour, base, mask=None), q=qd, k=kd, v=rng.choice(ALL_DTYPES))
+        # outside the domain
+        for flavour, base in (("general", "float32"), ("general", "float64"), ("concat", "float32"),
+                              ("concat", "float64")):
+            legal = set(self._legal_qk(flavour, base))
+            qd, kd = rng.choice([(a, b) for a in ALL_DTYPES for b in ALL_DTYPES if (a, b) not in legal])
+            yield self._mixed(rng, one(flavour, base), q=qd, k=kd, v=rng.choice(ALL_DTYPES))
+        for md in ("uint8", "int64", "float32"):
+            yield self._mixed(rng, one(rng.choice(FLAVOURS), "float32"), m=md)
 
     def _single(self, rng, flavour, n, nb, neg, tier, mask=None, pattern=None, wide=False):
         nc = n - 2 - nb  # key has n axes: nb + 1 (T) + nc + 1 (K)
@@ -722,6 +943,10 @@ class C20(PropertyCheck):
                             c = self._multi(rng, flavour, flags, rng.randint(1, 3), rng.random() < 0.5, tier)
                             c["mask"] = "some"
                             yield self._extras(rng, c, tier, mode=mode, dtype=dtype, layout=None)
+        # mixed dtypes between the arguments
+        for _ in range(reps):
+            for c in self._mixed_cases(rng, tier):
+                yield c
         # long sequences / long vectors
         for _ in range(2 * reps):
             for flavour in FLAVOURS:
@@ -790,10 +1015,12 @@ class C20(PropertyCheck):
         rng = random.Random(case["seed"] ^ 0x5EED)
         i, ET, Eb, qf, kf, vf, mf = expand_all(case, q, k, v, mask)
         T = ET[i]
-        scale = max(1.0, float(v.abs().max())) if v.numel() else 1.0
+        A, P, _ = self._dtypes(case, mod, q, k, v)
+        tol = case_tol(case, A, P)
+        scale = max(1.0, float(v.to(torch.float64).abs().max())) if v.numel() else 1.0
         if case["kind"] == "multi":
             # the output is a projection of the heads; scale by the largest |W| row sums involved
-            scale = max(1.0, float(out.abs().max())) if out.numel() else 1.0
+            scale = max(1.0, float(out.to(torch.float64).abs().max())) if out.numel() else 1.0
         D = out.shape[-1] if out.dim() else 0
         expected = Eb + [eff_dims(case)[1] if case["kind"] == "multi" else v.shape[-1]]
         if list(out.shape) != expected:
@@ -803,12 +1030,29 @@ class C20(PropertyCheck):
         if not torch.isfinite(out).all():
             fails.append(["non-finite output on finite inputs with >= 1 kept position", "C20.nonfinite"])
             return fails
+        # mixed dtypes: the result has the promoted dtype and equals the result for the same values stored in
+        # that dtype (the conversion is exact; the weights do not depend on the values)
+        if out.dtype != P:
+            fails.append([f"result dtype {out.dtype}, type promotion of the weights ({A}) with the values "
+                          f"({v.dtype}) gives {P}", "C20.mixed_dtype"])
+        if v.dtype != P:
+            try:
+                out_p = mod(q, k, v.to(P), mask)
+                d = close(out, out_p, 1.0, (T + 2) * float(torch.finfo(P).eps) * scale)
+                if d:
+                    fails.append([f"values of dtype {v.dtype}: result {out.reshape(-1).tolist()[:6]} differs from "
+                                  f"the result for the same values stored as {P} "
+                                  f"{out_p.reshape(-1).tolist()[:6]} ({d})", "C20.mixed_dtype"])
+            except Exception as e:  # noqa
+                fails.append([f"call with the values converted to {P} raised {type(e).__name__}: {e}"[:200],
+                              "C20.mixed_dtype"])
         # the call is a pure function of its arguments: grad mode / training flag change nothing,
         # the arguments are not written to
         before = [None if x is None else x.clone() for x in (q, k, v, mask)]
         try:
             with torch.enable_grad():
-                og = mod(q.clone().requires_grad_(True), k, v, mask).detach()
+                qg = q.clone().requires_grad_(True) if q.dtype.is_floating_point else q.clone()
+                og = mod(qg, k, v, mask).detach()
             mod.eval()
             oe = mod(q, k, v, mask)
             mod.train()
@@ -821,7 +1065,7 @@ class C20(PropertyCheck):
         # implicit broadcasting == explicit expansion
         try:
             out_e = mod(qf, kf, vf, mf)
-            d = close(out, out_e, scale)
+            d = close(out, out_e, scale, tol)
             if d:
                 fails.append([f"implicit broadcasting differs from explicit expansion ({d})", "C20.broadcast"])
         except Exception as e:  # noqa
@@ -833,7 +1077,7 @@ class C20(PropertyCheck):
                 alt = mod(q, k, v, None if mask is not None else torch.ones(ET, dtype=torch.bool))
                 # an explicit all-true mask may have a larger shape than the other arguments
                 d = close(out.broadcast_to(torch.broadcast_shapes(out.shape, alt.shape)),
-                          alt.broadcast_to(torch.broadcast_shapes(out.shape, alt.shape)), scale)
+                          alt.broadcast_to(torch.broadcast_shapes(out.shape, alt.shape)), scale, tol)
                 if d:
                     fails.append([f"no mask differs from an all-true mask ({d})", "C20.nomask"])
             except Exception as e:  # noqa
@@ -842,9 +1086,10 @@ class C20(PropertyCheck):
         # convexity: every output coordinate within [min, max] of the kept values
         if convex:
             keep = mfull.unsqueeze(-1).expand_as(vf)
-            lo = torch.where(keep, vf, torch.full_like(vf, float("inf"))).amin(i)
-            hi = torch.where(keep, vf, torch.full_like(vf, float("-inf"))).amax(i)
-            bad = (out < lo - TOL * scale) | (out > hi + TOL * scale)
+            vd, od = vf.to(torch.float64), out.to(torch.float64)  # exact conversions (any dtype)
+            lo = torch.where(keep, vd, torch.full_like(vd, float("inf"))).amin(i)
+            hi = torch.where(keep, vd, torch.full_like(vd, float("-inf"))).amax(i)
+            bad = (od < lo - tol * scale) | (od > hi + tol * scale)
             if bool(bad.any()):
                 j = int(bad.reshape(-1).nonzero()[0])
                 fails.append([f"output coordinate {float(out.reshape(-1)[j])!r} outside [min, max] = "
@@ -856,17 +1101,16 @@ class C20(PropertyCheck):
                 # ordinary, large, huge (finite) replacements; last: keys so large that the scores at the
                 # masked positions overflow (inf, or nan = inf - inf) before they are masked
                 big = 10.0 ** (rng.choice([0, 1, 3]) if trial == 0 else rng.choice([3, 30]))
-                kr = torch.tensor(_floats(rng, kf.numel(), big), dtype=kf.dtype).reshape(kf.shape)
-                vr = torch.tensor(_floats(rng, vf.numel(), big * 10), dtype=vf.dtype).reshape(vf.shape)
+                kr = _rand_like(rng, kf, big)
+                # (finite also after the conversion to the dtype of the result: 0 * inf = nan)
+                vr = _rand_like(rng, vf, min(big * 10, float(torch.finfo(P).max) / 4))
                 if trial == 2:
-                    top = float(torch.finfo(kf.dtype).max) / 2
-                    kr = torch.tensor([rng.choice([-top, top]) for _ in range(kf.numel())],
-                                      dtype=kf.dtype).reshape(kf.shape)
+                    kr = _top_like(rng, kf)
                 k2 = torch.where(mfull.unsqueeze(-1), kf, kr)
                 v2 = torch.where(mfull.unsqueeze(-1), vf, vr)
                 try:
                     o2 = mod(qf, k2, v2, mfull)
-                    d = None if torch.equal(o2, out_e) else close(o2, out_e, scale * 0.1)
+                    d = None if torch.equal(o2, out_e) else close(o2, out_e, scale * 0.1, tol)
                     if d:
                         fails.append([f"output changes when masked keys/values are replaced ({d})", "C20.blind"])
                         break
@@ -880,7 +1124,7 @@ class C20(PropertyCheck):
             idx = torch.tensor(perm)
             try:
                 o3 = mod(qf, kf.index_select(i, idx), vf.index_select(i, idx), mfull.index_select(i, idx))
-                d = close(o3, out_e, scale)
+                d = close(o3, out_e, scale, tol)
                 if d:
                     fails.append([f"output changes under the permutation {perm} of the positions ({d})",
                                   "C20.perm"])
@@ -888,20 +1132,40 @@ class C20(PropertyCheck):
                 fails.append([f"permuted call raised {type(e).__name__}", "C20.perm"])
         return fails
 
+    def _dtypes(self, case, mod, q, k, v):
+        """(A, P, legal) by torch's promotion rules; for a call outside those rules that was accepted all the
+        same (only a changed implementation does that) the dtypes the implementation shows"""
+        import torch
+        A, P, legal = expected_dtypes(case)
+        if not legal:
+            with torch.no_grad():
+                A = mod.score(q, k).dtype
+            P = torch.promote_types(A, v.dtype)
+        return A, P, legal
+
     def _run_single(self, case):
         import torch
         q, k, v, mask, params = make_inputs(case)
         mod = make_single(params, case["Q"], case["K"], case["dim"], _tdtype(case))
         store = []
         with torch.no_grad():
-            with capture_softmax(store):
-                out = mod(q, k, v, mask)
+            try:
+                with capture_softmax(store):
+                    out = mod(q, k, v, mask)
+            except (RuntimeError, TypeError) as exc:
+                if case.get("mixed") and not expected_dtypes(case)[2]:
+                    # dtypes that torch's own operations do not combine: outside the domain of the property
+                    return {"rejected": type(exc).__name__, "checks": []}
+                raise
+            A, P, _ = self._dtypes(case, mod, q, k, v)
             e = mod.score(q, k)
             i, ET, Eb, qf, kf, vf, mf = expand_all(case, q, k, v, mask)
-            obs = {"shape": list(out.shape), "checks": []}
+            obs = {"shape": list(out.shape), "checks": [],
+                   "dtypes": {"weights": str(e.dtype), "out": str(out.dtype)}}
             obs["checks"] = self._property_checks(case, mod, q, k, v, mask, out, convex=True)
             T = ET[i]
-            if mf is not None and not bool(mf.all()) and list(out.shape) == Eb + [v.shape[-1]]:
+            if mf is not None and not bool(mf.all()) and list(out.shape) == Eb + [v.shape[-1]] \
+                    and v.dtype.is_floating_point:
                 # the finiteness restriction of C20_blind, observed: an infinite value at a masked
                 # position meets the weight 0 and gives nan (not a failure: outside the quantifier)
                 v_inf = torch.where(mf.unsqueeze(-1), vf, torch.full_like(vf, float("inf")))
@@ -924,10 +1188,19 @@ class C20(PropertyCheck):
                         obs["checks"].append(["negative attention weight", "C20.weights"])
                     if bool((aa.masked_select(~mm) != 0).any()):
                         obs["checks"].append(["non-zero attention weight on a masked position", "C20.weights"])
-                    s = aa.sum(-1)
-                    if bool(((s - 1).abs() > TOL).any()):
+                    s = aa.to(torch.float64).sum(-1)
+                    if bool(((s - 1).abs() > max(TOL, 2 * _heps(A))).any()):
                         obs["checks"].append([f"attention weights sum to {s.tolist()} over the sequence axis, not 1",
                                               "C20.weights"])
+                    if a.dtype != A:
+                        obs["checks"].append([f"attention weights have dtype {a.dtype}, the scores {A}",
+                                              "C20.mixed_dtype"])
+                    # the result IS the convex combination under these weights (C20_convex_of_weights)
+                    if list(out.shape) == Eb + [v.shape[-1]]:
+                        d = wsum_diff(a.broadcast_to(ET), vf, out, i, T, P)
+                        if d:
+                            obs["checks"].append([f"result is not the weighted sum of the values under the softmax "
+                                                  f"weights: {d}", "C20.wsum"])
                 except RuntimeError:
                     obs["checks"].append([f"softmax output shape {list(store[0].shape)} does not broadcast to {ET}",
                                           "C20.shape"])
@@ -980,6 +1253,10 @@ class C20(PropertyCheck):
                     hi = torch.where(keep, vh, torch.full_like(vh, float("-inf"))).amax(i)
                     tolh = TOL * max(1.0, float(vh.abs().max()))
                     oh = oh.broadcast_to(lo.shape)
+                    d = wsum_diff(a, vh, oh, i, ET[i], expected_dtypes(case)[1])
+                    if d:
+                        obs["checks"].append([f"head output is not the weighted sum of the head's values under the "
+                                              f"softmax weights: {d}", "C20.wsum"])
                     bad = (oh < lo - tolh) | (oh > hi + tolh)
                     if bool(bad.any()):
                         j = int(bad.reshape(-1).nonzero()[0])
@@ -1018,7 +1295,12 @@ class C20(PropertyCheck):
             return {"op": "c20.shape", "case": {
                 "query_size": case["query_size"], "key_size": case["key_size"], "value_size": case["value_size"],
                 "dim": case["dim"], "q": case["q"], "k": case["k"], "v": case["v"], "mask": case["m"]}}
+        import torch
         q, k, v, mask, params = make_inputs(case)
+        if (case.get("mixed") or {}).get("m", "bool") != "bool":
+            return None  # a mask that is not bool: rejected by masked_fill, nothing to model
+        # the model sees the exact contents (every dtype converts exactly to double)
+        q, k, v = q.to(torch.float64), k.to(torch.float64), v.to(torch.float64)
         i, ET, Eb, qf, kf, vf, mf = expand_all(case, q, k, v, mask)
         qq, kk, vv, mm = elements(i, ET, qf, kf, vf, mf)
         elems = []
@@ -1030,7 +1312,6 @@ class C20(PropertyCheck):
         def tj(x):
             return None if x is None else {"shape": list(x.shape), "data": (
                 [bool(b) for b in x.reshape(-1).tolist()] if x.dtype == torch.bool else tl(x))}
-        import torch
         tens = {"dim": case["dim"], "Q": case["Q"], "K": case["K"],
                 "vsz": case["D"] if case["kind"] == "multi" else None,
                 "q": tj(q), "k": tj(k), "v": tj(v), "mask": tj(mask)}
@@ -1087,7 +1368,12 @@ class C20(PropertyCheck):
             return out
         if "error" in impl:
             return [f"implementation raised {impl['error']}: {impl.get('message')}"]
+        if "rejected" in impl:
+            return out  # dtypes torch does not combine: outside the domain, nothing to compare
         elems = model["elems"]
+        A, P, _ = expected_dtypes(case)
+        ctol = case_tol(case) / TOL   # 1 unless float16 / bfloat16 is in the chain
+        wtol = max(TOL, _heps(A)) / TOL
         # driver self-check model == spec is done in predicate(); here impl vs model
         if case["kind"] == "multi":
             if impl["has_bias"] != model["has_bias"]:
@@ -1108,12 +1394,12 @@ class C20(PropertyCheck):
                 flat = [x for row in impl["out"] for x in row]
                 sc = vscale if case["kind"] == "single" else max(
                     [1.0] + [abs(float(parse_frac(x))) for x in tm["data"] if not isinstance(parse_frac(x), str)])
-                d = self._vec_diff(flat, tm["data"], sc, what=f"tensor_out:{case['kind']}")
+                d = self._vec_diff(flat, tm["data"], sc * ctol, what=f"tensor_out:{case['kind']}")
                 if d:
                     out.append(f"tensor-level model: out impl={flat} model={tm['data']} ({d})")
         for n, (o, me) in enumerate(zip(impl["out"], elems)):
             sc = max([1.0] + [abs(float(parse_frac(x))) for x in me["out"] if not isinstance(parse_frac(x), str)])
-            d = self._vec_diff(o, me["out"], sc if case["kind"] == "multi" else vscale,
+            d = self._vec_diff(o, me["out"], (sc if case["kind"] == "multi" else vscale) * ctol,
                                what=f"out:{case['kind']}:{case['pmode']}")
             if d:
                 out.append(f"element {n}: out impl={o} model={me['out']} ({d})")
@@ -1135,7 +1421,7 @@ class C20(PropertyCheck):
                         out.append(f"element {n}: scores impl={impl['scores'][n]} model={me['scores']} ({d})")
                         break
                 if "weights" in impl:
-                    d = self._vec_diff(impl["weights"][n], me["weights"], 1.0,
+                    d = self._vec_diff(impl["weights"][n], me["weights"], wtol,
                                        what=f"weights:{case['flavour']}:{case['pmode']}")
                     if d:
                         out.append(f"element {n}: weights impl={impl['weights'][n]} model={me['weights']} ({d})")
@@ -1160,6 +1446,8 @@ class C20(PropertyCheck):
         if "error" in impl:
             return [(f"attention raised {impl['error']} on a legal call: {impl.get('message')}",
                      "C20.raises." + case["kind"])]
+        if "rejected" in impl:
+            return fails
         for what, sig in impl.get("checks", []):
             fails.append((what, sig))
         # machinery self-check: the driver's model and spec must agree (theorem C20_model_eq_spec)
@@ -1175,7 +1463,7 @@ class C20(PropertyCheck):
     def nontrivial(self, case, impl):
         if case["kind"] == "shape":
             return case["defect"] not in ("none", "none_bcast")
-        if case["mask"] != "some":
+        if case["mask"] != "some" or (isinstance(impl, dict) and "rejected" in impl):
             return False
         _, _, _, mask, _ = make_inputs(case)
         ms = list(mask.shape)
@@ -1200,6 +1488,16 @@ class C20(PropertyCheck):
         bc = [n for n in ("bq", "bk", "bv", "bm") if 0 in case[n]]
         t.append("broadcast=" + ("+".join(bc) if bc else "none"))
         t.append("dtype=" + case.get("dtype", "float32"))
+        if case.get("mixed"):
+            qn, kn, vn, pn = arg_dtypes(case)
+            t.append("mixed:value=" + vn + ("(full mantissa)" if case["mixed"].get("vfrac") else ""))
+            t.append("mixed:query,key=" + ("as parameters" if qn == kn == pn else qn + "," + kn))
+            t.append("mixed:domain=" + ("rejected (" + impl["rejected"] + ")" if isinstance(impl, dict)
+                                        and "rejected" in impl else "accepted"))
+            if "m" in case["mixed"]:
+                t.append("mixed:mask=" + case["mixed"]["m"])
+        else:
+            t.append("mixed:none" + ("+value_path_float64" if case.get("vpath") else ""))
         t.append("layout=" + (case.get("layout") or "contiguous") + ("+value_is_key" if case.get("alias") else ""))
         mag = case.get("mag")
         t.append("magnitude=" + ("ordinary" if not mag else mag["mode"] + (":1e4-1e5" if mag["M"] < 30000 else ":1e9-1e13")
@@ -1249,10 +1547,17 @@ class C20(PropertyCheck):
                 c = dict(case)
                 c[key] = val
                 yield c
-        for key in ("layout", "dtype", "dv_default", "O_default"):
+        for key in ("layout", "dtype", "dv_default", "O_default", "vpath"):
             if key in case:
                 c = dict(case)
                 del c[key]
+                yield c
+        mx = case.get("mixed") or {}
+        for key in ("q", "k", "vfrac"):
+            # towards "only the value has another dtype"; the failure must survive for the step to be kept
+            if key in mx:
+                c = dict(case)
+                c["mixed"] = {a: b for a, b in mx.items() if a != key}
                 yield c
         if case["kind"] == "multi":
             for key in ("dq", "dk", "dv"):
